@@ -1185,10 +1185,14 @@ def option_text_arm(rhs, bound, model_fn, pat_lean, delegated):
     return '%s (%s)' % (model_fn, pat_lean)
 
 
-def find_match(body, scrut):
-    """index range (start of arms, end) of `match <scrut> {` in body."""
+def find_match(body, scrut, prefix=''):
+    """index range (start of arms, end) of `match <scrut> {` in body.  The match must be the FIRST thing in the body
+    (after the given prefix text): statements in front of it (an early return, a fast path) are not something this
+    translator understands, so they make the item untranslatable instead of being skipped."""
     for i in range(len(body) - 2):
         if body[i].k == 'id' and body[i].v == 'match' and text_of(body[i + 1:i + 2]) == scrut and body[i + 2].v == '{':
+            if prefix is not None and text_of(body[:i]) != prefix:
+                raise Untranslatable('statements before `match %s`: %s' % (scrut, text_of(body[:i])[:200]))
             return i + 3, match_close(body, i + 2)
     raise Untranslatable('no match on ' + scrut)
 
@@ -1262,7 +1266,7 @@ def translate_tables(repo):
     def option_table(lean_name, ty, scrut, model_fn, key, tail=None):
         def f(it):
             body = it.body
-            a, b = find_match(body, scrut)
+            a, b = find_match(body, scrut, 'let snippet =' if key == 'snippet' else ('Ok (' if key in ('literal', 'placeholder') else ''))
             if tail is not None and text_of(body[b + 1:]) != tail:
                 raise Untranslatable('tail changed: ' + text_of(body[b + 1:]))
             rows, delegated = [], []
@@ -1465,7 +1469,7 @@ def translate_tables(repo):
                          r'let perm_mask = \( (.*?) \) \. bits \( \) ; let perm = p \. 0 \. bits \( \) ; '
                          r'let code = match check \{ (.*) \} ; buffer \. push_str \( & code \)', txt)
         if not m: raise Untranslatable('compile_perm_check shape changed')
-        a, b = find_match(it.body, 'check')
+        a, b = find_match(it.body, 'check', None)   # the whole body was matched against its shape above
         mask_toks = []
         # tokens of the mask expression
         i0 = [i for i, t in enumerate(it.body) if t.k == 'id' and t.v == 'perm_mask'][0]
@@ -1751,7 +1755,7 @@ def translate_tables(repo):
         txt = text_of(it.body)
         m = re.fullmatch(r'raw \. iter \( \) \. fold \( Self :: default \( \) , \| mut acc , ctx \| \{ match ctx \{ (.*) \} ; acc \} \)', txt)
         if not m: raise Untranslatable('SyntaxContext::new shape changed')
-        a, b = find_match(it.body, 'ctx')
+        a, b = find_match(it.body, 'ctx', None)     # the whole body was matched against its shape above
         label_rows, exp_row = [], None
         for pats, rhs in split_arms(it.body[a:b]):
             pt = text_of(pats[0])
@@ -1853,7 +1857,7 @@ def translate_tables(repo):
         txt = text_of(it.body)
         m = re.fullmatch(r'let mut out = String :: with_capacity \( input \. len \( \) \) ; for c in input \. chars \( \) \{ match c \{ (.*) \} \} out', txt)
         if not m: raise Untranslatable('scheme_escape shape changed')
-        a, b = find_match(it.body, 'c')
+        a, b = find_match(it.body, 'c', None)       # the whole body was matched against its shape above
         rows, last = [], None
         for pats, rhs in split_arms(it.body[a:b]):
             pt, rt = text_of(pats[0]), text_of(rhs)
@@ -2085,9 +2089,58 @@ def matchT (st : CState) (tpl : Text → Text) (s : Text) (ci : Bool) : CRes (Te
 """
 
 
+
+# ------------------------------------------------------------------------------------------------
+# everything else: every non-test function of src/ that is neither translated nor shape-matched above is PINNED —
+# the sha1 of its token text (comments, layout and log statements dropped) must be the one recorded in
+# tools/fingerprints.json when the hand-written model was transcribed from it (`--pin` rewrites that file)
+# ------------------------------------------------------------------------------------------------
+ALL_SOURCES = ['lib.rs', 'ast.rs', 'permission_flags.rs', 'find_parser/mod.rs', 'find_parser/prelude.rs', 'find_parser/size.rs',
+               'find_parser/timespec.rs', 'find_parser/filetype.rs', 'find_parser/permission.rs', 'find_parser/format.rs',
+               'find_parser/precedence.rs', 'find_parser/error.rs', 'scheme/mod.rs', 'scheme/manager.rs', 'scheme/target_scheme.rs', 'scheme/error.rs']
+
+
+def pinned_items(repo):
+    out = {}
+    for rel in ALL_SOURCES:
+        path = os.path.join(repo, 'src', rel)
+        if not os.path.exists(path):
+            continue
+        seen = {}
+        for it in extract_items(path):
+            k = '%s::%s' % (rel, it.key)
+            seen[k] = seen.get(k, 0) + 1
+            if seen[k] > 1: k += '#%d' % seen[k]
+            out[k] = (hashlib.sha1(text_of(it.body).encode()).hexdigest(), 'src/' + rel)
+        # the constant tables of permission_flags.rs and the enum/struct declarations are data, not functions
+        if rel in ('permission_flags.rs', 'ast.rs', 'scheme/error.rs', 'find_parser/error.rs', 'lib.rs', 'scheme/manager.rs', 'scheme/mod.rs'):
+            toks = tokenize(open(path).read())
+            decl, i = [], 0
+            while i < len(toks):
+                if toks[i].k == 'id' and toks[i].v in ('enum', 'struct', 'const', 'static') and i + 1 < len(toks) and toks[i + 1].k == 'id':
+                    j = i
+                    while j < len(toks) and not (toks[j].k == 'p' and toks[j].v in ('{', ';', '(')): j += 1
+                    if j < len(toks) and toks[j].v in ('{', '('):
+                        j = match_close(toks, j)
+                    decl += toks[i:j + 1]; i = j + 1
+                elif toks[i].k == 'p' and toks[i].v == '#' and i + 1 < len(toks) and toks[i + 1].v == '[':
+                    j = match_close(toks, i + 1)
+                    if any(t.k == 'id' and t.v == 'error' for t in toks[i:j]):      # thiserror message templates
+                        decl += toks[i:j + 1]
+                    i = j + 1
+                else: i += 1
+            out['%s::<declarations>' % rel] = (hashlib.sha1(text_of(decl).encode()).hexdigest(), 'src/' + rel)
+    return out
+
+
 def main():
     repo, out, rep = '/repo', None, None
     a = sys.argv[1:]
+    pinfile = os.path.join(os.path.dirname(os.path.abspath(__file__)), 'fingerprints.json')
+    if a and a[0] == '--pin':
+        repo = a[1] if len(a) > 1 else '/repo'
+        json.dump({k: v[0] for k, v in sorted(pinned_items(repo).items())}, open(pinfile, 'w'), indent=1)
+        print('pinned %d items' % len(pinned_items(repo))); sys.exit(0)
     while a:
         if a[0] == '--repo': repo = a[1]; a = a[2:]
         elif a[0] == '--out': out = a[1]; a = a[2:]
@@ -2099,6 +2152,16 @@ def main():
     tlines, treport = translate_tables(repo)
     ttext = TABLES_HEADER % repo + '\n'.join(tlines) + '\nend FV.Gen\n'
     report['tables'] = treport
+    # pinned items (everything that is not translated): changed, missing
+    pins = json.load(open(pinfile)) if os.path.exists(pinfile) else {}
+    now = pinned_items(repo)
+    report['pinned'] = {'items': len(pins), 'changed': {}}
+    for k, h in pins.items():
+        if k not in now:
+            report['pinned']['changed'][k] = 'src/' + k.split('::')[0]
+        elif now[k][0] != h:
+            report['pinned']['changed'][k] = now[k][1]
+    report['pinned']['new_items'] = sorted(k for k in now if k not in pins)
     if out:
         tout = os.path.join(os.path.dirname(out), 'Tables.lean')
         if not os.path.exists(tout) or open(tout).read() != ttext:
